@@ -14,6 +14,7 @@ NPDT = {"float32": np.float32, "float64": np.float64}
 DTNAME = {torch.float32: "float32", torch.float64: "float64"}
 
 LAYOUTS = ("contig", "transposed", "step", "offset", "expand", "chlast", "rowstep", "chanslice")
+# "unbatched" (batch dimension dropped) is drawn separately: an invalid rank on the pinned tree
 
 
 def _rnd(rng, shape, dtype, scale):
@@ -38,6 +39,9 @@ def make_tensor(spec):
     elif layout == "offset":
         base = _rnd(rng, shape[:-1] + [shape[-1] + 3], dtype, scale)
         view = base[..., 1:1 + shape[-1]]
+    elif layout == "unbatched" and len(shape) >= 3:
+        base = _rnd(rng, shape[1:], dtype, scale)
+        view = base
     elif layout == "rowstep" and len(shape) >= 3:
         base = _rnd(rng, shape[:-2] + [2 * shape[-2], shape[-1]], dtype, scale)
         view = base[..., ::2, :]
